@@ -33,7 +33,7 @@ theorem applyLookup_sim (hg : Gen.Buf.ensureGrowOnly = true) (hr : Gen.Buf.moveT
       0 < b'.outLen ∧ inP b' = R.drop n ∧ (∀ y ∈ outP b' ++ inP b', CtxG y) ∧ b'.maxLen = c.buf.maxLen ∧
       b'.flags = c.buf.flags ∧
       b'.outLen + (inP b').length ≤ c.buf.outLen + (inP c.buf).length + recs.length * Gr ∧
-      c.buf.maxOps - (recs.length : Int) ≤ b'.maxOps := by
+      c.buf.maxOps - (recs.length : Int) ≤ b'.maxOps ∧ c.buf.outLen + n + 1 ≤ b'.outLen := by
   have hol := outP_length c.buf hinv
   have hLl : (outP c.buf ++ inP c.buf).length = c.buf.outLen + (R.length + 1) := by rw [hin]; simp [hol]
   have hgl : gs.length = c.buf.outLen + (R.length + 1) := by rw [← hrel.length]; exact hLl
@@ -61,7 +61,7 @@ theorem applyLookup_sim (hg : Gen.Buf.ensureGrowOnly = true) (hr : Gen.Buf.moveT
     · rw [hin, List.drop_append, hol, List.drop_eq_nil_of_le (by rw [hol]; omega), List.nil_append,
         show c.buf.outLen + n + 1 - c.buf.outLen = n + 1 by omega]
       rfl
-  obtain ⟨b1, positions', count', endv', hrun, hst', hml', hfl', hacc, htl, hmo1⟩ :=
+  obtain ⟨b1, positions', count', endv', hrun, hst', hml', hfl', hacc, htl, hmo1, hee1⟩ :=
     recLoop_sim hg hr m c.font c.lookupMask Gr hlm hlmf (R.drop n) recs c gs _ P1 (n + 1) (c.buf.outLen + n + 1) hst rfl rfl hrnd
       hnest hbud hctx hops
   generalize hres : applyRecords c.font c.lookupMask recs gs (List.range' c.buf.outLen (n + 1)) = res at *
@@ -79,7 +79,7 @@ theorem applyLookup_sim (hg : Gen.Buf.ensureGrowOnly = true) (hr : Gen.Buf.moveT
     rw [hi2, hol2]; exact hst'.tail
   refine ⟨b2, ?_, hinv2, by rw [hsu2]; exact hst'.succ, by rw [hseq2]; exact hst'.rel, by rw [hol2]; omega,
     by rw [hol2]; exact hst'.last, by rw [hol2]; exact hst'.epos, hin2, by rw [hseq2]; exact hst'.glyph,
-    by rw [hml2, hml'], by rw [hfl2, hfl'], ?_, by rw [hmo2]; exact hmo1⟩
+    by rw [hml2, hml'], by rw [hfl2, hfl'], ?_, by rw [hmo2]; exact hmo1, by rw [hol2]; exact hee1⟩
   · have hnr : ¬ n + 1 > P.length := by omega
     have hend0 : ((c.buf.outLen : Int) + ((c.buf.idx + n + 1 : Nat) : Int) - (c.buf.idx : Int)) = ((c.buf.outLen + n + 1 : Nat) : Int) := by
       omega
